@@ -22,13 +22,13 @@ def variants(content, canon, tier, allpos=False):
     return out
 
 
-def menu_for(tier):
+def menu_for(tier, algos=None, ks=None):
     def menu_fn(w):
         m = []
-        for k in range(w.NK):
+        for k in (range(w.NK) if ks is None else ks):
             c = w.contents[k]
             n = len(c)
-            for canon in ALGOS12:
+            for canon in (algos or ALGOS12):
                 sps = spell.spellings(canon, tier) if tier == "thorough" else \
                     [spell.DATAONE.get(canon, spell.spellings(canon, "quick")[0]), canon]
                 if tier == "thorough":
@@ -69,16 +69,22 @@ def menu_for(tier):
 
 
 def main(tier, replay_payload=None):
-    w_args = dict(pids=["a", "b"], contents=[b"x", b"0123456789ab"] + ([b""] if tier == "thorough" else []),
+    w_args = dict(pids=["a", "b"], contents=[C_ONE, C_MULTI] + ([b""] if tier == "thorough" else []),
                   formats=[None], sym_dirs=False, fake_cid=False)
     menu_fn = menu_for(tier)
+    # a content of many buffers (4096-byte blocks): the verdict must be taken over all of it
+    big_args = dict(pids=["a", "b"], contents=[C_ONE, big_bytes(70001)], formats=[None], sym_dirs=False, fake_cid=False,
+                    blksize=4096)
+    big_menu = menu_for("quick", ALGOS12 if tier == "thorough" else ["sha256", "md5", "sha224", "blake2b"], [1])
+    parts = dict(main=(w_args, menu_fn), big=(big_args, big_menu))
     if replay_payload is not None:
-        return make_replayer(w_args, menu_fn)(replay_payload)
+        return make_multi_replayer(parts)(replay_payload)
     run = report.Run("C06", tier, technique="pathsym inductive step; verdict oracle (hashlib, casefold equality, integer "
                      "equality) vs the real validation path for every prior state of the content (symbolic)")
-    run.replayer = make_replayer(w_args, menu_fn)
+    run.replayer = make_multi_replayer(parts)
     res = step.explore_steps(w_args, menu_fn)
     collect(run, res, MINE, w_args, menu_fn)
+    collect(run, step.explore_steps(big_args, big_menu), MINE, big_args, big_menu, part="big")
     run.functions = loader.function_lines(loader.load(), API_FUNCS + ["FileHashStore._check_integer"])
     run.bounds = dict(algorithms=ALGOS12, spellings="DataONE + hashlib canonical (quick); 5 structured spellings (thorough)",
                       checksum=["true digest lower/upper/mixed case", "digest of another algorithm", "truncated",
@@ -86,7 +92,7 @@ def main(tier, replay_payload=None):
                       size=["absent", "true", "true+1", "true-1"], entry_points=["store_object(pid,...)",
                                                                                  "delete_if_invalid_object"],
                       prior_state="symbolic: content absent / present unreferenced / present referenced; pid bound or not",
-                      calls=res[0][2])
+                      contents=[1, 12, "70001 (4096-byte blocks; 4 algorithms quick / 12 thorough)"], calls=res[0][2])
     run.explanation = ("Every (entry point, algorithm spelling, checksum variant, size variant) is executed from an "
                        "arbitrary symbolic state; the expected verdict comes from an independent oracle. z3 proves per "
                        "path: invalid => documented mismatch class, no pid bound, no new object (store_object) / object "
